@@ -20,10 +20,11 @@ struct Cfg {
     platform: u8,                 // 0 = no env dir, 1 = rich env dir
     store: &'static str,          // absent | valid | malformed | dangling | binary (not UTF-8) | directory | loop (symlink to itself)
     plan_file: &'static str,      // ok | missing | binary
+    blocked: &'static str,        // "" or the name of an output file under <layers> whose place is taken by a NON-EMPTY DIRECTORY (writing it fails)
 }
 impl Cfg {
     fn base(exe: &'static str) -> Cfg {
-        Cfg { exe, argc_delta: 0, toml: "ok", missing_var: "", behaviour: "pass", parts: vec![], preexisting: false, platform: 1, store: "absent", plan_file: "ok" }
+        Cfg { exe, argc_delta: 0, toml: "ok", missing_var: "", behaviour: "pass", parts: vec![], preexisting: false, platform: 1, store: "absent", plan_file: "ok", blocked: "" }
     }
 }
 fn hex(b: &[u8]) -> String { b.iter().map(|x| format!("{x:02x}")).collect() }
@@ -86,6 +87,7 @@ fn run_one(exe_rtbp: &Path, c: &Cfg, r: &mut Report) {
         symlink(root.join("outside_value"), e.join("LINKED")).unwrap();
         expected_env.push((hex(b"LINKED"), hex(b"via-link")));
         symlink(&app, e.join("LINKDIR")).unwrap(); // symlink to a directory: tolerated, not a variable
+        symlink(root.join("nowhere-at-all"), e.join("AAA_DANGLING")).unwrap(); symlink(root.join("nowhere-at-all"), e.join("M_DANGLING")).unwrap(); // dangling links: not variables, and no reason to lose the others
         expected_env.sort();
     }
     let plan_out = root.join("plan-out.toml");     // detect's <buildplan>
@@ -93,6 +95,8 @@ fn run_one(exe_rtbp: &Path, c: &Cfg, r: &mut Report) {
     match c.plan_file { "ok" => fs::write(&bp_plan, PLAN_TEXT).unwrap(), "binary" => fs::write(&bp_plan, [0xff, 0xfe, 0x00]).unwrap(), _ => {} }
     match c.store {
         "valid" => fs::write(layers.join("store.toml"), STORE_TEXT).unwrap(),
+        // the store file as libcnb ITSELF wrote it at the end of an earlier build that returned a store without any metadata yet
+        "written_empty" => libcnb::write_toml_file(&libcnb::data::store::Store::default(), layers.join("store.toml")).unwrap(),
         "malformed" => fs::write(layers.join("store.toml"), "metadata = 3").unwrap(),
         "dangling" => symlink(root.join("nowhere"), layers.join("store.toml")).unwrap(),
         "binary" => fs::write(layers.join("store.toml"), b"[metadata]\nowner = \"Ren\xE9\"\n").unwrap(),
@@ -107,6 +111,7 @@ fn run_one(exe_rtbp: &Path, c: &Cfg, r: &mut Report) {
         fs::create_dir_all(layers.join("somelayer")).unwrap();
         fs::write(layers.join("somelayer.toml"), b"[types]\nlaunch = true\n").unwrap();
     }
+    if !c.blocked.is_empty() { fs::create_dir_all(layers.join(c.blocked).join("occupied")).unwrap(); }
     let exe_link = bin.join(c.exe);
     symlink(exe_rtbp, &exe_link).unwrap();
     let mut args: Vec<PathBuf> = if c.exe == "build" { vec![layers.clone(), platform.clone(), bp_plan.clone()] } else { vec![platform.clone(), plan_out.clone()] };
@@ -140,6 +145,10 @@ fn run_one(exe_rtbp: &Path, c: &Cfg, r: &mut Report) {
     } else if inputs_bad {
         if !bad(code) || log != ["on_error"] { fail("missing_input", "a missing mandatory input never reaches detect/build; the error handler runs once", "code not in {0,100}, log [on_error]".into(), format!("code {code}, log {log:?}")); }
         if log.iter().any(|l| l == callback) { fail("context", "an input that is missing or cannot be represented is a reported error, never silently dropped: the call-back must not be reached", "call-back not reached".into(), format!("log {log:?}, context handed over: {}", dump.lines().filter(|l| l.starts_with("store=") || l.starts_with("target=")).collect::<Vec<_>>().join(" "))); }
+    } else if !c.blocked.is_empty() {
+        // one of the provided outputs cannot be written (its place is taken by a non-empty directory), the others can: build must not exit 0
+        if !bad(code) || log != [callback, "on_error"] { fail("output_write_failure", "an output that cannot be written makes build fail (handler once, code neither 0 nor 100), also when outputs written AFTER it succeed", format!("code not in {{0,100}}, log [{callback}, on_error]"), format!("code {code}, log {log:?}")); }
+        expected_after = after.clone();   // which of the other outputs were written before the failure is not part of the claim
     } else if c.behaviour == "error" {
         if !bad(code) || log != [callback, "on_error"] { fail("callback_error", "a call-back error: handler once, code neither 0 nor 100", format!("code not in {{0,100}}, log [{callback}, on_error]"), format!("code {code}, log {log:?}")); }
     } else if c.exe == "detect" {
@@ -174,6 +183,9 @@ fn run_one(exe_rtbp: &Path, c: &Cfg, r: &mut Report) {
         fail("outputs_exact", "outputs are written exactly for the parts that were provided; everything else is as before", "see diff".into(), diff.join("; "));
     }
     // ---- C06: the context the call-back was handed
+    if !gate_closed && !inputs_bad && log.first().map(String::as_str) != Some(callback) {
+        r.violation("context", "every input is present and readable (a store file, if any, is one libcnb wrote itself or a well-formed one): the call-back is reached and handed the context", input.clone(), format!("log starts with {callback}"), format!("code {code}, log {log:?}"));
+    }
     if log.first().map(String::as_str) == Some(callback) && !gate_closed {
         let mut want = String::new();
         use std::fmt::Write as _;
@@ -188,7 +200,7 @@ fn run_one(exe_rtbp: &Path, c: &Cfg, r: &mut Report) {
             writeln!(want, "layers_dir={}", hex(layers.as_os_str().as_encoded_bytes())).unwrap();
             let p: libcnb::data::buildpack_plan::BuildpackPlan = toml::from_str(PLAN_TEXT).unwrap();
             writeln!(want, "plan={}", hex(format!("{p:?}").as_bytes())).unwrap();
-            let s: Option<libcnb::data::store::Store> = if c.store == "valid" { Some(toml::from_str(STORE_TEXT).unwrap()) } else { None };
+            let s: Option<libcnb::data::store::Store> = if c.store == "valid" { Some(toml::from_str(STORE_TEXT).unwrap()) } else if c.store == "written_empty" { Some(libcnb::data::store::Store::default()) } else { None };
             writeln!(want, "store={}", hex(format!("{s:?}").as_bytes())).unwrap();
         }
         if dump != want {
@@ -229,8 +241,13 @@ pub fn runtime(thorough: bool) -> Report {
             let mut c = Cfg::base("build"); c.parts = ls.iter().chain(bs.iter()).chain(lsb.iter()).cloned().collect(); c.preexisting = pre; c.store = st; cfgs.push(c);
         }
     } } } }
-    for st in ["malformed", "dangling", "valid", "binary", "directory", "loop"] { for parts in [vec![], vec!["store"]] { let mut c = Cfg::base("build"); c.store = st; c.parts = parts; cfgs.push(c); } }
+    for st in ["malformed", "dangling", "valid", "binary", "directory", "loop", "written_empty"] { for parts in [vec![], vec!["store"]] { let mut c = Cfg::base("build"); c.store = st; c.parts = parts; cfgs.push(c); } }
     for pf in ["missing", "binary"] { let mut c = Cfg::base("build"); c.plan_file = pf; cfgs.push(c); }
+    // one output of several cannot be written: the first / middle / last SBOM of a kind, launch.toml
+    for (blocked, parts) in [("build.sbom.cdx.json", vec!["b0", "b1", "b2"]), ("build.sbom.spdx.json", vec!["b0", "b1", "b2"]), ("build.sbom.syft.json", vec!["b0", "b1", "b2"]),
+                             ("launch.sbom.cdx.json", vec!["l0", "l1", "l2", "launch"]), ("launch.sbom.spdx.json", vec!["l0", "l1"]), ("launch.toml", vec!["launch", "store", "b0"])] {   // (store.toml is also an INPUT: a directory in its place is the store case "directory")
+        let mut c = Cfg::base("build"); c.parts = parts; c.blocked = blocked; cfgs.push(c);
+    }
     { let mut c = Cfg::base("build"); c.behaviour = "error"; cfgs.push(c); }
     { let mut c = Cfg::base("build"); c.platform = 0; cfgs.push(c); }
     for c in &cfgs { run_one(&exe, c, &mut r); }
